@@ -16,15 +16,13 @@ def int64ToBytes (v : Nat) : Bytes := toBE 8 v
 /-- `int64ToMinimalBytes`: strip leading zero bytes. -/
 def int64ToMinimalBytes (v : Nat) : Bytes := (int64ToBytes v).dropWhile (· == 0)
 
-/-- `encodeBytes(inBytes, isList)`. -/
+/-- `encodeBytes(inBytes, isList)`. The two `if` conditions are the translated Go expressions
+    `Gen.RlpConsts.encSingle` / `encShort`. `inBytes[0]` is only evaluated when `len == 1` (short-circuit). -/
 def encodeBytes (inp : Bytes) (isList : Bool) : Bytes :=
   let shortOffset := if isList then shortList else shortString
-  let single : Bool :=
-    match inp with
-    | [b] => !isList && decide (b.toNat ≤ singleMax)
-    | _ => false
-  if single then inp
-  else if inp.length ≤ shortMax then UInt8.ofNat (shortOffset + inp.length) :: inp
+  let b0 : Nat := match inp with | b :: _ => b.toNat | [] => 0
+  if encSingle inp.length b0 isList then inp
+  else if encShort inp.length then UInt8.ofNat (shortOffset + inp.length) :: inp
   else
     let l := int64ToMinimalBytes inp.length
     UInt8.ofNat (shortOffset + shortToLong + l.length) :: (l ++ inp)
@@ -43,7 +41,7 @@ end
 /-- `minimalBytesToInt64`: accumulate-and-shift in wrapping int64, then the `v < 0 || v > maxInt32` test. -/
 def minimalBytesToInt64 (data : Bytes) : Outcome Nat :=
   let v := fromBE data % 2 ^ 64
-  if v ≥ 2 ^ 63 ∨ v > maxInt32 then .err else .ok v
+  if lenReject v then .err else .ok v
 
 /-- body of `extractLongLen` after `lenOfLen` is computed, on the remaining input (`pos = 0`).
     Returns (dataLen, newPos). -/
@@ -62,7 +60,7 @@ def extractLongLenAux (lenOfLen : Nat) (bs : Bytes) : Outcome (Nat × Nat) :=
 
 /-- `extractLongLen(isList, prefixByte, pos, rlpData)`. -/
 def extractLongLen (isList : Bool) (pfx : Nat) (bs : Bytes) : Outcome (Nat × Nat) :=
-  extractLongLenAux (pfx - (if isList then longList else longString)) bs
+  extractLongLenAux ((pfx + 256 - (if isList then longList else longString)) % 256) bs
 
 /-- What one iteration of the `for` loop of `decode` finds at the front of the remaining input:
     a finished string element, or a list whose payload still has to be decoded recursively.
@@ -71,29 +69,31 @@ inductive Hdr where
   | leaf (it : Item) (n : Nat)
   | sub (payload : Bytes) (n : Nat)
 
-/-- The six-way prefix `switch` of `decode`, with its bounds checks and slice expressions,
-    up to (not including) the recursive call. -/
+/-- The six-way prefix `switch` of `decode` (guards = translated Go expressions `Gen.RlpConsts.decCase0..5`,
+    tried in order as Go does), with its bounds checks and slice expressions, up to (not including)
+    the recursive call. Byte subtractions `prefix - shortString` etc. wrap modulo 256 as Go `byte` arithmetic does. -/
 def header (bs : Bytes) : Outcome Hdr :=
   match bs with
   | [] => .panic  -- `rlpData[pos]` with pos = len; unreachable behind the loop guard
   | b :: _ =>
     let p := b.toNat
-    if p < shortString then .ok (.leaf (.str [b]) 1)
-    else if p = shortString then .ok (.leaf (.str []) 1)
-    else if p ≤ longString then
-      let strLen := p - shortString
+    if decCase0 p then .ok (.leaf (.str [b]) 1)
+    else if decCase1 p then .ok (.leaf (.str []) 1)
+    else if decCase2 p then
+      let strLen := (p + 256 - shortString) % 256
       if strLen > bs.length - 1 then .err
       else (slice? bs 1 (1 + strLen)).bind fun d => .ok (.leaf (.str d) (1 + strLen))
-    else if p < shortList then
+    else if decCase3 p then
       (extractLongLen false p bs).bind fun (strLen, pos) =>
       (slice? bs pos (pos + strLen)).bind fun d => .ok (.leaf (.str d) (pos + strLen))
-    else if p ≤ longList then
-      let listLen := p - shortList
+    else if decCase4 p then
+      let listLen := (p + 256 - shortList) % 256
       if listLen > bs.length - 1 then .err
       else (slice? bs 1 (1 + listLen)).bind fun sub => .ok (.sub sub (1 + listLen))
-    else
+    else if decCase5 p then
       (extractLongLen true p bs).bind fun (listLen, pos) =>
       (slice? bs pos (pos + listLen)).bind fun sub => .ok (.sub sub (pos + listLen))
+    else .panic  -- no `case` matches: the Go loop would spin forever without advancing
 
 mutual
   /-- one iteration of the `for` loop of `decode` on the remaining input: element and bytes consumed.
